@@ -83,7 +83,8 @@ def execute(pid, unit_cases, run_cases, pairs=None):
             oracle = d.get("oracle", "ok")
             extra = P.get("post")
             rec = dict(id=c["id"], kind="run", corr=corr, oracle=oracle, case=c, sig=sig,
-                       nontrivial=(r.get("raw_printed") is not None and "_create" in (r.get("raw_printed") or "")) or bool(r.get("diags")) or bool(r.get("panic")),
+                       nontrivial=(P["nontrivial"](c, r) if "nontrivial" in P else
+                                   (r.get("raw_printed") is not None and "_create" in (r.get("raw_printed") or "")) or bool(r.get("diags")) or bool(r.get("panic"))),
                        detail={k: v for k, v in d.items() if k not in ("id",)},
                        impl={"printed": r.get("printed"), "diags": r.get("diags"), "panic": r.get("panic"), "reparse_ok": r.get("reparse_ok"),
                              "same_twice": r.get("same_twice")})
@@ -418,7 +419,8 @@ PROPS["C03"] = {
 }
 
 # ---- C04 ---------------------------------------------------------------------------------------------------
-DIR_NAMES = ["v-foo", "vFoo", "v-my-dir", "vMyDir", "v-foo:arg", "v-foo_a", "v-foo_a_b", "vFooBar_m", "v-x:y_m_n", "v-show", "vShow", "v-html", "vHtml", "v-text", "vText"]
+DIR_NAMES = ["v-foo", "vFoo", "v-my-dir", "vMyDir", "v-foo:arg", "v-foo_a", "v-foo_a_b", "vFooBar_m", "v-x:y_m_n", "v-show", "vShow", "v-html", "vHtml", "v-text", "vText",
+             "v-visible", "vValidate_lazy", "v-viewport:top_once", "v-v", "v-on-x", "vV", "v-slotted", "vTextual", "v-htmlx", "v-model-x"]
 DIR_VALUES = ["={x}", "={[x]}", "={[x, 'arg']}", "={[x, ['m1', 'm2']]}", "={[x, 'arg', ['m']]}", "={[x, y]}", "={[x, y, ['m']]}", '="lit"', "={f(1)}", "={obj.a}"]
 
 
@@ -435,7 +437,7 @@ def c04_cases(tier, seed):
     prof = {"tags": ALL_TAGS, "w_directive": 6, "directives": {"custom": 5, "show": 2, "html": 2, "text": 2, "model": 1, "models": 0, "slots": 1}}
     mods, hist = gen_modules(r, budget(tier, 2500, 60000), prof, std_opts)
     run += mods
-    return [], run, {"rule": "fixtures + product of 15 directive spellings x 10 value shapes x 3 hosts x 4 neighbourhoods (sampled 1/2 in quick) + %d generated modules rich in directives" % len(mods),
+    return [], run, {"rule": "fixtures + product of 25 directive spellings (incl. names that start with v, -, or with a built-in directive's name) x 10 value shapes x 3 hosts x 4 neighbourhoods (sampled 1/2 in quick) + %d generated modules rich in directives" % len(mods),
                      "exhaustive": tier != "quick", "exhaustive_part": "spellings x value shapes x hosts x neighbourhoods product", "histogram": dict(hist.most_common(40))}
 
 
@@ -449,7 +451,7 @@ PROPS["C04"] = {
 # ---- C05 ---------------------------------------------------------------------------------------------------
 MODEL_NAMES = ["v-model", "vModel", "v-model:foo", "v-model_trim", "v-model:foo_lazy", "v-model_a_b"]
 MODEL_VALUES = ["={T}", "={[T]}", "={[T, 'arg']}", "={[T, ['lazy']]}", "={[T, 'arg', ['m']]}", "={[T, x]}", "={[T, x, ['m']]}"]
-MODEL_HOSTS = ["input", 'input type="checkbox"', 'input type="radio"', 'input type="text"', "input type={t}", "select", "textarea", "div", "Comp", "Unk", "NS.Item"]
+MODEL_HOSTS = ["input", 'input type="checkbox"', 'input type="radio"', 'input type="text"', "input type={t}", 'input type={"checkbox"}', "input type={'radio'}", "input type", "select", "textarea", "div", "Comp", "Unk", "NS.Item"]
 
 
 def c05_cases(tier, seed):
@@ -471,7 +473,7 @@ def c05_cases(tier, seed):
             "directives": {"model": 8, "models": 3, "show": 1, "custom": 1}}
     mods, hist = gen_modules(r, budget(tier, 2500, 60000), prof, std_opts)
     run += mods
-    return [], run, {"rule": "fixtures + product of 6 v-model spellings x 7 value/argument/modifier forms x 11 hosts x 3 targets (targets other than identifier sampled 1/3 in quick) + v-models lists x hosts + %d generated modules rich in v-model(s)" % len(mods),
+    return [], run, {"rule": "fixtures + product of 6 v-model spellings x 7 value/argument/modifier forms x 14 hosts x 3 targets (targets other than identifier sampled 1/3 in quick) + v-models lists x hosts + %d generated modules rich in v-model(s)" % len(mods),
                      "exhaustive": tier != "quick", "exhaustive_part": "spellings x forms x hosts x targets product", "histogram": dict(hist.most_common(40))}
 
 
@@ -737,4 +739,28 @@ PROPS["C15"] = {
                  "C15_scan_result_is_one_word"],
     "cases": c15_cases,
     "explanation": "oracle: the effective pragma is computed from the comments SWC attached before the module / each top-level item by the specification scanner (Text.pragmaOfComment) and the option; the real output must contain exactly one call of that identifier per lowered element/fragment and must not import createVNode; without a pragma every lowered element/fragment is a call of the createVNode imported once from one generated 'vue' import",
+}
+
+
+# ---- C20 ---------------------------------------------------------------------------------------------------
+import tsgen
+
+
+def c20_cases(tier, seed):
+    r = gen.Rng(seed)
+    run = corpus_cases("C20") + fixture_cases(lambda c: c["tsx"])
+    for cid, src in tsgen.c20_products(tier):
+        for rt in ([True, False] if (len(run) % 5 == 0) else [True]):
+            run.append({"id": "%s|rt=%s" % (cid, rt), "src": src, "tsx": True, "opts": {"resolveType": rt}})
+    return [], run, {"rule": "TSX fixtures + product of binding provenance of `defineComponent` (vue named import, aliased, namespace member, other module, local function, global, shadowed by a parameter) x setup shapes (typed arrow, with SetupContext, untyped, function expression, non-function, object) x 20 options shapes (none, {}, each key explicit, string/shorthand/method/computed/getter spellings, spreads before/after, identifier, call, conditional, spread argument) x 10 declaration kinds (const/let/var/export/default export/assignment/bare/destructuring/wrapped/annotated); the full product in thorough, in quick the complete slices through the vue-named import plus a 6% sample of the rest; + spread first argument and member callee x options; resolveType on (and off for 1/5)",
+                     "exhaustive": tier == "thorough", "exhaustive_part": "provenance x setup x options x declaration product"}
+
+
+PROPS["C20"] = {
+    "nontrivial": lambda c, r: "defineComponent(" in c["src"] or "defineComponent (" in c["src"],
+    "theorems": ["C20_off_untouched", "C20_other_calls_untouched", "C20_gate_iff", "C20_member_callee_never", "C20_import_other_module",
+                 "C20_explicit_option_kept", "C20_spread_arguments_untouched", "C20_options_expression_spread_last",
+                 "insertBeforeFirstSpread_eq", "C20_user_wins_semantic"],
+    "cases": c20_cases,
+    "explanation": "oracle: every user-written call of the input is aligned with the same call of the real output; a changed call must be a call of the binding imported by name from 'vue' with resolveType on, must not have a spread among its first two arguments, must keep every user-written option entry in order, and every injected props/emits/name entry must sit BEFORE any user entry or spread that can provide the same key (so that what the user wrote is what Vue receives); name only for `const x = defineComponent(...)` with the variable's name",
 }
